@@ -1,11 +1,12 @@
 /-
-  C05 — enum accepts exactly the listed values (string-like fields: c05; integer fields: c05_numeric; float fields: differential only).
+  C05 — enum accepts exactly the listed values (string-like fields: c05; integer fields: c05_numeric; float fields: c05_float, c05_float_nan).
   Facts.* (emitted conditions, guards, names, zero table) are regenerated from /repo on every run;
   `mkCheck` is the hand model of makeValidator + factory, `fires` the Go-operator semantics over field
   values, `Spec.violates` the meaning of the marker written from the property statement.
 -/
 import Gvlean.Proofs.Gen
 import Gvlean.Proofs.EnumNum
+import Gvlean.Proofs.EnumFloat
 
 namespace Props
 open Go Gen Proofs
@@ -51,5 +52,39 @@ theorem c05_numeric (f p : String) (ty : Ty) (k : Kind) (x : Int) (r : Bool)
 /-- the hypotheses are satisfiable: every integer kind the extracted guard lists is treated as numeric -/
 example : enumIsNum Facts.info_enum.guard (.basic .int8) = true ∧ enumIsNum Facts.info_enum.guard (.named (.basic .uint64)) = true := by
   constructor <;> rfl
+
+/-- enum on a FLOAT field (float32 / float64, also through a named type): the `&&`-chain of
+    `t.F != item` fires iff the value is IEEE-equal to none of the items (decimal literals; `-0`
+    equals a listed `0`, NaN equals nothing). No representability hypothesis on the value: `b` is
+    any bit pattern. The literal is compared exactly (see the trusted-base note on representable
+    marker parameters). -/
+theorem c05_float (f p : String) (ty : Ty) (fv : Val) (x : FVal) (r : Bool)
+    (hx : Proofs.floatValOf ty fv = some x)
+    (hnum : enumIsNum Facts.info_enum.guard ty = true)
+    (hne : Spec.enumItems p ≠ [])
+    (hv : Spec.violates "enum" (some p) ty fv = some r) :
+    ∃ e, enumCond f ty p Facts.info_enum.guard = some e ∧ fires (Proofs.envOf f ty fv) e = some r ∧
+      r = !(Spec.enumItems p).any (fun it => match parseDec it with | some d => cmpFloatDec x d == some .eq | none => false) :=
+  Proofs.enum_float_sound f p ty fv x r hx hnum hne hv
+
+/-- a NaN is rejected by every float enum, whatever is listed -/
+theorem c05_float_nan (f p : String) (ty : Ty) (fv : Val) (r : Bool)
+    (hx : Proofs.floatValOf ty fv = some .nan)
+    (hnum : enumIsNum Facts.info_enum.guard ty = true)
+    (hne : Spec.enumItems p ≠ [])
+    (hv : Spec.violates "enum" (some p) ty fv = some r) : r = true := by
+  obtain ⟨_, _, _, h⟩ := c05_float f p ty fv .nan r hx hnum hne hv
+  rw [h]
+  have : ((Spec.enumItems p).any fun it => match parseDec it with | some d => cmpFloatDec .nan d == some .eq | none => false) = false := by
+    simp only [List.any_eq_false]
+    intro y _
+    cases parseDec y <;> simp [cmpFloatDec]
+  simp [this]
+
+/-- the hypotheses are satisfiable: both float kinds are numeric for the extracted guard, and a
+    float64 bit pattern is a float value of a (named) float64 field -/
+example : enumIsNum Facts.info_enum.guard (.basic .float32) = true ∧ enumIsNum Facts.info_enum.guard (.named (.basic .float64)) = true ∧
+    (Proofs.floatValOf (.named (.basic .float64)) (.f64 0x3FF8000000000000)).isSome = true := by
+  refine ⟨rfl, rfl, rfl⟩
 
 end Props
